@@ -4,6 +4,7 @@ from contracts import c09_c
 from . import handlers_common as hc, gateway_units as gu
 
 PROP = "C09"
+ASSUMPTION_CHECKS = ['A-AIO']
 MIN_OBLIGATIONS = 10
 TRUSTED = hc.HANDLER_TRUSTED + ["A-AIO: asyncio is cooperative - another task runs only while this one is suspended in an await"]
 ASSUMPTIONS = [
